@@ -8,7 +8,7 @@
 // file:line and the reason - on every construct outside the subset below, so a changed source is
 // never mistranslated silently.  Hand-written counterpart: lean/Acme/Core/GenExporterPrelude.lean.
 //
-//	roots                       xpRoots (exportMessage) and every method of *exporter / function they call
+//	roots                       xpRoots (exportBus) and every method of *exporter / function they call
 //	receiver `e`                ↦ the threaded state `st : Acme.XSem.St`, only for functions that write it:
 //	                              `e.dbcFile.X = append(e.dbcFile.X, v)` ↦ { st with x := st.x ++ [v] },
 //	                              `e.currDBCMsg.Signals` ↦ st.curSignals, `e.currDBCMsg = m` (m a fresh
@@ -63,7 +63,7 @@ const (
 	xpRecv    = "exporter"
 )
 
-var xpRoots = []string{"exportMessage"}
+var xpRoots = []string{"exportBus"}
 
 // ---------------------------------------------------------------- spec tables
 
@@ -117,6 +117,12 @@ var xpProj = map[string][2]string{
 	"Msg senderNodeInt":              {"%", "MsgSender"},
 	"MsgSender node":                 {"%", "MsgSenderNode"},
 	"MsgSenderNode name":             {"%.senderName", ""},
+	"Bus desc":                       {"%.desc", ""},
+	"Bus NodeInterfaces()":           {"%.nodeInterfaces", "[]NodeInt"},
+	"NodeInt node":                   {"%", "NodeIntNode"},
+	"NodeIntNode name":               {"%.nodeName", ""},
+	"NodeIntNode desc":               {"%.nodeDesc", ""},
+	"NodeInt SentMessages()":         {"%.sentMessages", "[]Msg"},
 }
 
 // Go type of a model object ↦ receiver kind / Lean type
@@ -130,11 +136,13 @@ var xpModelTypes = map[string][2]string{
 	"*SignalEnum":        {"SigEnum", "SigEnum"},
 	"*SignalEnumValue":   {"EnumValue", "EnumValue"},
 	"*Message":           {"Msg", "Msg"},
-	"*NodeInterface":     {"Recv", "String"},
+	"*NodeInterface":     {"NodeInt", "NodeInt"}, // an element of Receivers() is a "Recv" by its path
+	"*Bus":               {"Bus", "Bus"},
 }
 
 // kinds of slices of model objects ↦ element kind
-var xpElemKind = map[string]string{"[]Recv": "Recv", "[]Sig": "Sig", "[][]Sig": "[]Sig", "[]EnumValue": "EnumValue"}
+var xpElemKind = map[string]string{"[]Recv": "Recv", "[]Sig": "Sig", "[][]Sig": "[]Sig", "[]EnumValue": "EnumValue",
+	"[]NodeInt": "NodeInt", "[]Msg": "Msg", "[]SigEnum": "SigEnum"}
 
 // the three signal kinds: constant ↦ (conversion method, constructor, kind of the bound variable)
 var xpKinds = map[string][3]string{
@@ -162,11 +170,16 @@ var xpStructTable = []string{
 	"ValueDescription Acme.Dbc.ValueDescription ID=id Name=name",
 	"ExtendedMux Acme.Dbc.ExtendedMux MessageID=messageID MultiplexorName=multiplexorName MultiplexedName=multiplexedName Ranges=ranges",
 	"ExtendedMuxRange Acme.Dbc.ExtendedMuxRange From=from_ To=to",
+	"Nodes DbcNodes Names=names",
+	"ValueTable Acme.Dbc.ValueTable Name=name Values=values",
 }
 
 // e.dbcFile.<Field> ↦ field of St
 var xpFileFields = map[string]string{"Comments": "comments", "ValueEncodings": "valueEncodings",
-	"ExtendedMuxes": "extendedMuxes", "Messages": "messages"}
+	"ExtendedMuxes": "extendedMuxes", "Messages": "messages", "ValueTables": "valueTables"}
+
+// e.dbcFile.<Field> = p (a pointer section, assigned once) ↦ field of St (an Option)
+var xpFilePtrFields = map[string]string{"Nodes": "nodes"}
 
 // the slice: what seeds a skipped variable, and the sinks that are skipped
 var xpSliceSeeds = []string{"AttributeAssignments", "newAttributeAssignment"}
@@ -201,6 +214,7 @@ type xpSig struct { // signature of a translated function, by a syntactic pre-pa
 	mayPanic bool
 	usesClr  bool
 	usesPm   bool
+	usesSort string // element type of the one `slices.SortFunc` of the function ("" = none)
 	written  map[int]bool // pointer parameters written
 	out      map[int]bool // ... and returned
 	nLoop    int
@@ -599,6 +613,16 @@ func (t *xptr) prepass() {
 				if id, ok := y.Fun.(*ast.Ident); ok && id.Name == "clearSpaces" {
 					s.usesClr = true
 				}
+				if exprStr(y.Fun) == "slices.SortFunc" && len(y.Args) == 2 {
+					if s.usesSort != "" {
+						t.fail(y, "two sorts in one function")
+					}
+					sl, ok := types.Unalias(t.info.TypeOf(y.Args[0])).Underlying().(*types.Slice)
+					if !ok {
+						t.fail(y, "slices.SortFunc of a non-slice")
+					}
+					s.usesSort = t.leanType(sl.Elem(), y)
+				}
 			case *ast.SelectorExpr:
 				if y.Sel.Name == "ParentMessage" || y.Sel.Name == "parentMsg" {
 					s.usesPm = true
@@ -647,7 +671,7 @@ func (t *xptr) prepass() {
 				upd(&s.writesSt, g.writesSt)
 				upd(&s.mayPanic, g.mayPanic)
 				upd(&s.usesClr, g.usesClr)
-				upd(&s.usesPm, g.usesPm)
+				upd(&s.usesPm, t.needsPm(g))
 				params := xpParamObjs(t.info, s.decl)
 				for j, a := range c.Args {
 					if g.written[j] {
@@ -724,6 +748,62 @@ func (t *xptr) prepass() {
 			walk(s.decl.Body)
 		}
 	}
+}
+
+// needsPm: a caller has to hand the parent message to g (g reads it and has no *Message parameter)
+func (t *xptr) needsPm(g *xpSig) bool {
+	if !g.usesPm {
+		return false
+	}
+	for _, p := range xpParamObjs(t.info, g.decl) {
+		if t.typeName(p.Type()) == "*Message" {
+			return false
+		}
+	}
+	return true
+}
+
+// sortedValuesAt: list[i..i+2] is
+//
+//	x := make([]T, 0, len(m)); for _, v := range m { x = append(x, v) }; slices.SortFunc(x, func..)
+//
+// with m a map of the exporter: the values of the map, sorted
+func (t *xptr) sortedValuesAt(list []ast.Stmt, i int) (x *ast.Ident, m ast.Expr, ok bool) {
+	if i+2 >= len(list) {
+		return
+	}
+	as, ok1 := list[i].(*ast.AssignStmt)
+	rs, ok2 := list[i+1].(*ast.RangeStmt)
+	es, ok3 := list[i+2].(*ast.ExprStmt)
+	if !ok1 || !ok2 || !ok3 || as.Tok != token.DEFINE || len(as.Lhs) != 1 || len(as.Rhs) != 1 {
+		return
+	}
+	mk, ok1 := as.Rhs[0].(*ast.CallExpr)
+	if !ok1 || len(mk.Args) != 3 || exprStr(mk.Fun) != "make" || exprStr(mk.Args[1]) != "0" {
+		return
+	}
+	if _, isSlice := mk.Args[0].(*ast.ArrayType); !isSlice {
+		return
+	}
+	if _, isMap := types.Unalias(t.info.TypeOf(rs.X)).Underlying().(*types.Map); !isMap {
+		return
+	}
+	if exprStr(mk.Args[2]) != "len("+exprStr(rs.X)+")" || rs.Tok != token.DEFINE || rs.Value == nil ||
+		(rs.Key != nil && exprStr(rs.Key) != "_") || len(rs.Body.List) != 1 {
+		return
+	}
+	xn := exprStr(as.Lhs[0])
+	if exprStr(rs.Body.List[0]) != xn+" = append("+xn+", "+exprStr(rs.Value)+")" {
+		return
+	}
+	call, ok1 := es.X.(*ast.CallExpr)
+	if !ok1 || exprStr(call.Fun) != "slices.SortFunc" || len(call.Args) != 2 || exprStr(call.Args[0]) != xn {
+		return
+	}
+	if _, isLit := call.Args[1].(*ast.FuncLit); !isLit {
+		return
+	}
+	return as.Lhs[0].(*ast.Ident), rs.X, true
 }
 
 func xpParamObjs(info *types.Info, fd *ast.FuncDecl) []*types.Var {
